@@ -146,7 +146,7 @@ def compute (q : Bool) (index : Nat) (dg : DG.Graph) : Node → M Out
   | .empty => pure (skip index dg)
   | .decl .. => pure (skip index dg)
   | n@(.assign _ (.id x) r) => do
-    match r.rmCast1 with
+    match r.rmCast with          -- `rvalue = Analysis.rm_cast(node.rvalue)`
     | .binop op l rr =>
       let (i, rl) ← binaryOp index x op l rr
       pure ⟨i, rl, false, dg, []⟩
